@@ -704,7 +704,17 @@ pub fn walk_via_loop(layout: &Layout, history: &[(Option<Event>, Vec<Event>)], n
         } else { wants.clear(); }
         if let Some(c) = out.get_mut(at) { for e in rec["evs"].as_array().unwrap() { c["ev"].as_array_mut().unwrap().push(e.clone()); } }
       },
-      ("send", "err") => { failed_write = true; cut = Some(out.len().saturating_sub(1)); },
+      ("send", "err") => {
+        failed_write = true;
+        // the event the failed write belongs to (the same attribution as for a write that succeeded)
+        let mut at = out.len().saturating_sub(1);
+        if wants.len() > 1 {
+          if let Some(p) = wants.iter().position(|(_, want)| want.as_array().map(|a| !a.is_empty()).unwrap_or(false)) {
+            if wants[p].1 == rec["evs"] { at = wants[p].0; }
+          }
+        }
+        cut = Some(at);
+      },
       _ => ()
     }
   }
